@@ -7,6 +7,8 @@
 //!   default   a string default containing U+001B (repaired by /repo 773af2b: must round-trip)
 //!   ifacedir  an interface that implements an interface and carries a directive
 //!   dirarg    a custom directive whose argument has a description
+//!   nulls     explicit null defaults: #[graphql(default)] on Option<T> arguments (Object, Subscription), input fields and
+//!             a directive-definition argument, beside absent and non-null defaults (introspection reports "null")
 //!   entity    federation entities: an #[graphql(entity)] resolver, so the registry holds _Any, _Entity,
 //!             _Service and the root fields _service / _entities
 use async_graphql::*;
@@ -199,6 +201,73 @@ mod dirarg {
     pub fn sdl(o: SDLExportOptions) -> String { Schema::build(Query, EmptyMutation, EmptySubscription).finish().sdl_with_options(o) }
 }
 
+// ---- nulls ------------------------------------------------------------------------------------------
+#[TypeDirective(location = "FieldDefinition")]
+fn hinted(#[graphql(default)] hint: Option<String>, #[graphql(default)] level: i32) {}
+
+mod nulls {
+    use super::*;
+    #[derive(InputObject)]
+    pub struct Filter {
+        #[graphql(default)]
+        pub tag: Option<String>,
+        #[graphql(default)]
+        pub ids: Option<Vec<i32>>,
+        #[graphql(default)]
+        pub limit: i32,
+        #[graphql(default = 5)]
+        pub size: Option<i32>,
+        pub plain: Option<i32>,
+        #[graphql(default)]
+        pub inner: Option<Box<Filter>>,
+    }
+    pub struct Query;
+    #[Object]
+    impl Query {
+        #[graphql(directive = hinted::apply(None, 1))]
+        async fn find(&self, #[graphql(default)] name: Option<String>, #[graphql(default = 3)] first: Option<i32>, plain: Option<i32>,
+                      #[graphql(default)] filter: Option<Filter>, #[graphql(default)] flags: Option<Vec<Option<bool>>>) -> i32 {
+            let _ = (name, first, plain, filter, flags);
+            0
+        }
+    }
+    pub struct Subscription;
+    #[Subscription]
+    impl Subscription {
+        async fn ticks(&self, #[graphql(default)] every: Option<i32>, #[graphql(default)] n: i32) -> impl futures_util::stream::Stream<Item = i32> {
+            let _ = every;
+            futures_util::stream::iter(0..n)
+        }
+    }
+    pub fn mirror() -> J {
+        let null = || json!({"k": "null"});
+        let list = |t: J| json!({"k": "list", "of": t});
+        json!({"query": "Query", "mutation": "", "subscription": "Subscription",
+            "directives": {"@hinted": {"repeatable": false, "locations": ["FIELD_DEFINITION"],
+                "args": {"hint": {"ty": named("String"), "default": null()}, "level": {"ty": nn(named("Int")), "default": {"k": "int", "v": "0"}}}}},
+            "types": {
+                "Filter": with(ty("INPUT_OBJECT"), "inputFields", json!({
+                    "tag": {"ty": named("String"), "default": null()},
+                    "ids": {"ty": list(nn(named("Int"))), "default": null()},
+                    "limit": {"ty": nn(named("Int")), "default": {"k": "int", "v": "0"}},
+                    "size": {"ty": named("Int"), "default": {"k": "int", "v": "5"}},
+                    "plain": {"ty": named("Int"), "default": none()},
+                    "inner": {"ty": named("Filter"), "default": null()}})),
+                "Query": with(ty("OBJECT"), "fields", json!({
+                    "find": {"ty": nn(named("Int")), "args": {
+                        "name": {"ty": named("String"), "default": null()},
+                        "first": {"ty": named("Int"), "default": {"k": "int", "v": "3"}},
+                        "plain": {"ty": named("Int"), "default": none()},
+                        "filter": {"ty": named("Filter"), "default": null()},
+                        "flags": {"ty": list(named("Boolean")), "default": null()}}}})),
+                "Subscription": with(ty("OBJECT"), "fields", json!({
+                    "ticks": {"ty": nn(named("Int")), "args": {
+                        "every": {"ty": named("Int"), "default": null()},
+                        "n": {"ty": nn(named("Int")), "default": {"k": "int", "v": "0"}}}}}))}})
+    }
+    pub fn sdl(o: SDLExportOptions) -> String { Schema::build(Query, EmptyMutation, Subscription).finish().sdl_with_options(o) }
+}
+
 // ---- entity -----------------------------------------------------------------------------------------
 mod entity {
     use super::*;
@@ -229,14 +298,14 @@ mod entity {
 pub fn mirror(name: &str) -> J {
     match name {
         "plain" => plain::mirror(), "reason" => reason::mirror(), "default" => default::mirror(),
-        "ifacedir" => ifacedir::mirror(), "dirarg" => dirarg::mirror(), "entity" => entity::mirror(),
+        "ifacedir" => ifacedir::mirror(), "dirarg" => dirarg::mirror(), "nulls" => nulls::mirror(), "entity" => entity::mirror(),
         _ => vh::io::tool_error(&format!("no static schema {name}")),
     }
 }
 pub fn sdl(name: &str, opts: SDLExportOptions) -> String {
     match name {
         "plain" => plain::sdl(opts), "reason" => reason::sdl(opts), "default" => default::sdl(opts),
-        "ifacedir" => ifacedir::sdl(opts), "dirarg" => dirarg::sdl(opts), "entity" => entity::sdl(opts),
+        "ifacedir" => ifacedir::sdl(opts), "dirarg" => dirarg::sdl(opts), "nulls" => nulls::sdl(opts), "entity" => entity::sdl(opts),
         _ => vh::io::tool_error(&format!("no static schema {name}")),
     }
 }
